@@ -582,3 +582,77 @@ func TestC07NilForms(t *testing.T) {
 		vlib.Exhaustive("C07 KEM x mode cells with a nil reader", 5*4+2*2, "every applicable cell; all shards together")
 	}
 }
+
+// ---------------------------------------------------------------------------
+// Length sweep against the reference: plaintext / aad lengths around every power-of-two boundary and around those
+// boundaries minus the tag length (every length in 2^16-17 .. 2^16+1 and 2^17-17 .. 2^17+1), one suite per AEAD; every
+// ciphertext equals the reference's, circl opens the reference's ciphertext and the reference opens circl's.
+func TestC07Lengths(t *testing.T) {
+	defer vlib.Done()
+	selftest(t)
+	if vlib.Shard != 0 {
+		return
+	}
+	const sub = "length-sweep"
+	lens := []int{0, 1, 15, 16, 17, 31, 32, 33, 255, 256, 257, 4095, 4096, 4097}
+	for n := 1<<16 - 17; n <= 1<<16+1; n++ {
+		lens = append(lens, n)
+	}
+	for n := 1<<17 - 17; n <= 1<<17+1; n++ {
+		lens = append(lens, n)
+	}
+	buf := make([]byte, 1<<17+64)
+	vlib.ExpandInto(buf, uint64(vlib.Seed)*911+3)
+	for ai, aeadID := range aeadIDs {
+		s := rhpke.Suite{KEM: []uint16{rhpke.KEMX25519, rhpke.KEMP256, rhpke.KEMXWing}[ai], KDF: kdfIDs[ai], AEAD: aeadID}
+		c := sweepCase(s, ai%2, 41) // base, psk, base
+		k := rhpke.KEMByID(s.KEM)
+		sch := hpke.KEM(s.KEM).Scheme()
+		cs := circlSuite(s)
+		pkR, skR := sch.DeriveKeyPair(c.IkmR)
+		rskR, rpkR, _ := k.DeriveKeyPair(c.IkmR)
+		enc, sl, err := senderSetup(cs, c.Mode, pkR, c.Info, c.Psk, c.PskID, nil, c.IkmE)
+		if err != nil {
+			t.Fatalf("sender setup: %v", err)
+		}
+		op, err := receiverSetup(cs, c.Mode, skR, enc, c.Info, c.Psk, c.PskID, nil)
+		if err != nil {
+			t.Fatalf("receiver setup: %v", err)
+		}
+		_, rS, err := rhpke.SetupS(s, c.Mode, rpkR, c.Info, c.Psk, c.PskID, nil, c.IkmE)
+		if err != nil {
+			t.Fatalf("reference setup: %v", err)
+		}
+		rR, err := rhpke.SetupR(s, c.Mode, enc, rskR, c.Info, c.Psk, c.PskID, nil)
+		if err != nil {
+			t.Fatalf("reference receiver: %v", err)
+		}
+		for i, n := range lens {
+			aadLen := lens[(i*7+3)%len(lens)]
+			if i%3 != 0 && aadLen > 300 {
+				aadLen %= 300
+			}
+			pt, aad := buf[:n], buf[len(buf)-aadLen:]
+			vlib.Eval(sub)
+			replay := map[string]interface{}{"aead": aeadID, "ptlen": n, "aadlen": aadLen, "index": i, "case": c.String()}
+			where := fmt.Sprintf("AEAD %d, message %d, plaintext %d bytes, aad %d bytes", aeadID, i, n, aadLen)
+			ct, err := sl.Seal(pt, aad)
+			want, _ := rS.Seal(aad, pt)
+			if err != nil || !bytes.Equal(ct, want) {
+				vlib.ReportDirect(t, fmt.Sprintf("C07/length-sweep/aead%d/ciphertext", aeadID), fmt.Sprintf("%s: err=%v, ciphertext differs from RFC 9180 (%d vs %d bytes)", where, err, len(ct), len(want)), replay)
+				return
+			}
+			got, err := op.Open(want, aad)
+			if err != nil || !bytes.Equal(got, pt) {
+				vlib.ReportDirect(t, "C07/length-sweep/open", fmt.Sprintf("%s: the receiver does not open the in-order ciphertext (%d bytes): %v", where, len(want), err), replay)
+				return
+			}
+			got, err = rR.Open(aad, ct)
+			if err != nil || !bytes.Equal(got, pt) {
+				vlib.ReportDirect(t, "C07/length-sweep/reference-opens", fmt.Sprintf("%s: %v", where, err), replay)
+				return
+			}
+			vlib.NonTrivial(sub, "", []byte{byte(aeadID), byte(i)})
+		}
+	}
+}
